@@ -160,7 +160,7 @@ def main():
             "enable": "no source hooks: the harness observes the public API and wraps bound methods on instances from outside; "
                       "ARTLIB_VERIF=1 is exported by the harness but nothing in /repo reads it",
             "baseline_off_cmd": "cd /repo && /venv/bin/python -m pytest -ra -q -p no:cacheprovider --timeout=900 "
-                                "--continue-on-collection-errors unit_tests",
+                                "--continue-on-collection-errors",
             "source_commits": [],
             "add_only": True,
         },
